@@ -153,21 +153,40 @@ def euclidH2 (N : Matrix (Fin n) (Fin n) K) (x : (Fin n → K) × (Fin n → K))
 
 end Harmonic
 
-/-! ### Evaluation helper: materialise a vector (identity function, see `force_eq`) -/
+/-! ### Evaluation helper: materialise a vector (identity function, see `force_eq`)
 
-/-- Forces the components of a `Fin n → α` vector into an array so that iterated flows do not build
-towers of closures when executed. Provably the identity. -/
-def force {n : Nat} {α : Type*} (v : Fin n → α) : Fin n → α :=
+When executed, iterated flows on `Fin n → K` would build towers of closures that are re-evaluated on
+every component access.  `force` stores the components in an array.  The naive definition
+`let a := Array.ofFn v; fun i => a[i]` does not work: the compiler eta-expands it to arity 2 and
+rebuilds the array on each access.  Hence a `@[noinline]` boxing function returning a two-field
+structure and a `@[macro_inline]` projection. -/
+
+structure VBox (β : Type*) where
+  val : β
+  tag : Nat
+
+@[noinline] def forceBox {n : Nat} {α : Type*} (v : Fin n → α) : VBox (Fin n → α) :=
   let a := Array.ofFn v
-  fun i => a[i.1]'(by simp [a])
+  ⟨fun i => a[i.1]'(by simp [a]), a.size⟩
+
+/-- Materialise a vector. Provably the identity. -/
+@[macro_inline] def force {n : Nat} {α : Type*} (v : Fin n → α) : Fin n → α := (forceBox v).val
 
 theorem force_eq {n : Nat} {α : Type*} (v : Fin n → α) : force v = v := by
-  funext i; simp [force]
+  funext i; simp [force, forceBox]
 
-def force2 {n : Nat} {α : Type*} (x : (Fin n → α) × (Fin n → α)) : (Fin n → α) × (Fin n → α) :=
-  (force x.1, force x.2)
+@[noinline] def force2Box {n : Nat} {α : Type*} (x : (Fin n → α) × (Fin n → α)) :
+    VBox ((Fin n → α) × (Fin n → α)) :=
+  let a := Array.ofFn x.1
+  let b := Array.ofFn x.2
+  ⟨(fun i => a[i.1]'(by simp [a]), fun i => b[i.1]'(by simp [b])), a.size⟩
+
+/-- Materialise a phase-space point. Provably the identity. -/
+@[macro_inline] def force2 {n : Nat} {α : Type*} (x : (Fin n → α) × (Fin n → α)) :
+    (Fin n → α) × (Fin n → α) := (force2Box x).val
 
 theorem force2_eq {n : Nat} {α : Type*} (x : (Fin n → α) × (Fin n → α)) : force2 x = x := by
-  simp [force2, force_eq]
+  obtain ⟨q, p⟩ := x
+  refine Prod.ext ?_ ?_ <;> funext i <;> simp [force2, force2Box]
 
 end MiciVerif.Integrators
